@@ -3,6 +3,7 @@
   unless every unfinished actor waits for the token that a client deliberately holds.
 -/
 import Lungo.Proofs.ConcProgress
+import Lungo.Proofs.ConcUnshared
 namespace Lungo.Conc
 
 /-- labels that are not faults, not timeouts, not new calls and not ticker events -/
